@@ -54,7 +54,8 @@ class C12(CheckBase):
                     f['dir'] = rng.choice(DIRS) if rng.chance(0.7) else rng.randint(1, 0x7F)
         s = dfswork.surface_of(disc)
         cmdk = rng.weighted([(8, 'extract-files'), (3, 'extract-unused'), (4, 'read')])
-        dest = rng.choice(['out', 'out/', './out', 'out/.', 'ABS/out', 'out//', 'sub/../out', 'ABS/out/'])
+        dest = rng.choice(['out', 'out/', './out', 'out/.', 'ABS/out', 'out//', 'sub/../out', 'ABS/out/',
+                           'lnk/../out2', 'lnk/../out2/', 'ABS/lnk/../out2', 'lnkout', 'lnkout/', 'sub/deep/../../out'])
         g = []
         if rng.chance(0.3):
             g += ['--dir', rng.choice(['$', '.', '/', 'A', '-'])]
@@ -74,14 +75,18 @@ class C12(CheckBase):
     def arrange(self, case, sb, s):
         """Create the directories hostile names would traverse, and decoys."""
         root = sb.root
-        files = {'out': None, 'sub': None, 'o': None, 'decoy.txt': b'decoy\n', 'ESC': b'pre-existing\n' if case['fwhich'] % 2 else None}
+        # lnk -> sub/deep, so the kernel resolves lnk/../out2 to sub/out2 (not to ./out2, which also exists as a decoy);
+        # lnkout -> out
+        files = {'out': None, 'sub': None, 'sub/deep': None, 'sub/out2': None, 'out2': None, 'o': None, 'decoy.txt': b'decoy\n',
+                 'lnk': ('symlink', 'sub/deep'), 'lnkout': ('symlink', 'out'),
+                 'ESC': b'pre-existing\n' if case['fwhich'] % 2 else None}
         if files['ESC'] is None:
             del files['ESC']
         sb.populate(files)
         for v, f in s.all_files():
             name = f.name.split(b' ')[0].split(b'\0')[0]
             for base in (name, bytes([f.dir]) + b'.' + name):
-                p = os.path.join(root.encode(), b'out', base)
+                p = os.path.join(root.encode(), getattr(self, '_dest_real', 'out').encode(), base)
                 parent = os.path.dirname(os.path.normpath(p.replace(b'//', b'/'))) if False else os.path.dirname(p)
                 try:
                     rp = os.path.realpath(parent)
@@ -103,6 +108,11 @@ class C12(CheckBase):
         if case['second']:
             files['other.ssd'] = dd.gen_surface(__import__('sim.prng', fromlist=['Rng']).Rng(77), variant='acorn', geom=(40, 10), img_id=7).render()
         sb.reset(files)
+        self._dest_real = 'out'
+        if case['cmd'][0] in ('extract-files', 'extract-unused'):
+            d0 = case['cmd'][-1].replace('ABS', sb.root)
+            sb.populate({'out': None, 'sub': None, 'sub/deep': None, 'sub/out2': None, 'out2': None, 'lnk': ('symlink', 'sub/deep'), 'lnkout': ('symlink', 'out')})
+            self._dest_real = os.path.relpath(os.path.realpath(os.path.join(sb.root, d0)), os.path.realpath(sb.root))
         self.arrange(case, sb, s)
         before = sb.snapshot()
         cmd = [a.replace('ABS', sb.root) for a in case['cmd']]
@@ -119,6 +129,10 @@ class C12(CheckBase):
             out.fault(case['fault'], delivered)
         after = sb.snapshot()
         is_extract = case['cmd'][0] in ('extract-files', 'extract-unused')
+        # the destination the user named, as the kernel resolves it
+        dest_real = 'out'
+        if is_extract:
+            dest_real = os.path.relpath(os.path.realpath(os.path.join(sb.root, cmd[-1])), os.path.realpath(sb.root))
         muts = r['mutations']
         ok_muts = [m for m in muts if m['res'] >= 0]
         out.probe('failed-mutation-attempts', len(muts) - len(ok_muts))
@@ -149,8 +163,8 @@ class C12(CheckBase):
                 out.violate('C12.c', '%s: created or modified %s (%s)' % (what, p, m['op']), dict(desc, where='read-command'), case)
                 continue
             d, b = os.path.split(p)
-            if d != 'out' or not b:
-                out.violate('C12.b', '%s: %s %r, which is not directly inside the destination directory' % (what, m['op'], p), dict(desc, where='escape'), case)
+            if d != dest_real or not b:
+                out.violate('C12.b', '%s: %s %r, which is not directly inside the destination directory (%s)' % (what, m['op'], p, dest_real), dict(desc, where='escape'), case)
         # C12.d snapshot agrees with the syscall record
         changed = sorted(k for k in set(before) | set(after) if before.get(k) != after.get(k))
         seen = set(m['path'] for m in ok_muts)
@@ -160,7 +174,7 @@ class C12(CheckBase):
             if k in images:
                 continue
             d, b = os.path.split(k)
-            if (not is_extract) or d != 'out':
+            if (not is_extract) or d != dest_real:
                 if after.get(k) != before.get(k):
                     out.violate('C12.b' if is_extract else 'C12.c', '%s: tree snapshot shows %r created or changed outside the destination' % (what, k),
                                 dict(desc, where='escape' if is_extract else 'read-command'), case)
